@@ -183,10 +183,15 @@ func TestC09FsyncFailure(t *testing.T) {
 			t.Fatalf("VERIF-INFRA baseline: %v %+v", err, out0)
 		}
 		for _, ev := range base.Ops[0].Events {
-			if ev.Kind != "sync" {
+			errnos := []int{5 /*EIO*/, 28 /*ENOSPC*/, 22 /*EINVAL: "this file system cannot sync that"*/}
+			if ev.Name == "renameat" || ev.Name == "rename" || ev.Name == "renameat2" {
+				// the work area on another file system: the move into place is refused; whatever the code does instead,
+				// an acknowledged operation must be durable
+				errnos = []int{18 /*EXDEV*/}
+			} else if ev.Kind != "sync" {
 				continue
 			}
-			for _, en := range []int{5 /*EIO*/, 28 /*ENOSPC*/} {
+			for _, en := range errnos {
 				s := mk()
 				// the same process (same store handle) goes on after the failure: an unrelated add follows
 				follow := Op{Kind: "add", User: "zed", PW: "after-the-failure"}
@@ -238,8 +243,8 @@ func TestC09FsyncFailure(t *testing.T) {
 						}
 						if !same {
 							s.cleanup()
-							t.Fatalf("VIOLATION C09: %s(%s) reported success although its fsync of the %s (syscall #%d) failed with errno %d; after a power loss a reachable state does not show the acknowledged change [%s]:\n  acknowledged: %s\n  post-crash:   %s",
-								op.Kind, op.User, target, ev.Seq, en, img.Desc, describeFiles(want), describeFiles(got))
+							t.Fatalf("VIOLATION C09: %s(%s) reported success although its %s on the %s (syscall #%d) failed with errno %d; after a power loss a reachable state does not show the acknowledged change [%s]:\n  acknowledged: %s\n  post-crash:   %s",
+								op.Kind, op.User, ev.Name, target, ev.Seq, en, img.Desc, describeFiles(want), describeFiles(got))
 						}
 					}
 					vlib.Class("op-acknowledged-despite-failed-fsync(still durable in every image)")
